@@ -3,6 +3,7 @@ use core::cmp::Ordering;
 use vstd::std_specs::iter::IteratorSpec;
 verus! {
 //@include shims/uuid.rs
+//@include shims/kvx_btreemap.rs
 //@include shims/std_option.rs
 pub enum OperationError { InvalidEntryState, InvalidState, Backend }
 #[derive(Clone, Copy)] pub struct AttrString { pub o: u64 }
@@ -29,9 +30,8 @@ impl BTreeSet<Uuid> {
     #[verifier::external_body] pub fn insert(&mut self, u: Uuid) -> (r: bool) { unimplemented!() }
     #[verifier::external_body] pub fn extend(&mut self, it: UuidIter) { unimplemented!() }
 }
-pub struct FilterCache { pub o: u8 }
-impl FilterCache { #[verifier::external_body] pub fn insert(&mut self, u: Uuid, f: Filter<FilterInvalid>) -> (r: Option<Filter<FilterInvalid>>) { unimplemented!() } }
-pub struct DynGroupCache { pub insts: FilterCache }
+// the filter cache the other hooks match candidate entries against: dyn group uuid -> resolved filter
+pub struct DynGroupCache { pub insts: BTreeMap<Uuid, Filter<FilterInvalid>> }
 // ---- entries ----
 pub struct EntrySealed; pub struct EntryCommitted;
 #[verifier::reject_recursive_types(S)] #[verifier::reject_recursive_types(C)] pub struct Entry<S, C> { pub o: int, pub p: core::marker::PhantomData<(S, C)> }
@@ -66,8 +66,9 @@ impl QueryServerWriteTransaction {
     pub uninterp spec fn db(&self) -> Db;
     pub uninterp spec fn applied(&self) -> Seq<(Arc<EntrySealedCommitted>, EntryInvalidCommitted)>;     // ghost log of internal_apply_writable
     #[verifier::external_body] pub fn kvx_before_schema_ready(&self) -> (r: bool) { unimplemented!() }
+    // a search result holds each entry once (uuids are unique)
     #[verifier::external_body] pub fn internal_search_writeable(&mut self, f: &Filter<FilterInvalid>) -> (r: Result<Vec<(Arc<EntrySealedCommitted>, EntryInvalidCommitted)>, OperationError>)
-        ensures *final(self) == *old(self) { unimplemented!() }
+        ensures *final(self) == *old(self), r matches Ok(v) ==> forall|i: int, j: int| 0 <= i < j < v@.len() ==> (#[trigger] v@[i]).0.v.uuid() != (#[trigger] v@[j]).0.v.uuid() { unimplemented!() }
     #[verifier::external_body] pub fn internal_search(&mut self, f: Filter<FilterInvalid>) -> (r: Result<Vec<Arc<EntrySealedCommitted>>, OperationError>)
         ensures *final(self) == *old(self), r matches Ok(v) ==> members_are(v@, matching(old(self).db(), f.from)) { unimplemented!() }
     #[verifier::external_body] pub fn internal_apply_writable(&mut self, w: Vec<(Arc<EntrySealedCommitted>, EntryInvalidCommitted)>) -> (r: Result<(), OperationError>)
@@ -84,6 +85,10 @@ pub open spec fn members_are(v: Seq<Arc<EntrySealedCommitted>>, s: Set<Uuid>) ->
 // C18, one recomputation step: the group's dynamic members are exactly the entries its stored filter selects now
 pub open spec fn dyn_ok(db: Db, g: EntryInvalidCommitted) -> bool {
     g.dyn_filter() matches Some(f) && g.dynmember() =~= matching(db, f)
+}
+// the cache entry of a recomputed group is its stored filter (later candidate changes are matched against the cache)
+pub open spec fn cached_ok(cache: Map<Uuid, Filter<FilterInvalid>>, g: (Arc<EntrySealedCommitted>, EntryInvalidCommitted)) -> bool {
+    cache.contains_key(g.0.v.uuid()) && Some(cache[g.0.v.uuid()].from) == g.1.dyn_filter()
 }
 pub open spec fn log_extends<T>(old_log: Seq<T>, new_log: Seq<T>) -> bool {
     old_log.len() <= new_log.len() && forall|i: int| 0 <= i < old_log.len() ==> #[trigger] new_log[i] == old_log[i]
